@@ -13,6 +13,12 @@ FIELD_KEYS = ["a", "b"]
 FIELD_VALS = [None, 0, 1, 2, -1, 1.5, 10, float("inf"), 2.0, 0.1, -2, 1e16, 2.5e-07, -3e-05, 1e+22]       # (the last four print in exponent notation)
 
 
+# the scenarios a random history draws from (some twice) and their names
+SCENARIO_DRAW = ["ooo_batch", "carriers", "bad_batch", "stale_handle", "torn_update", "handle_times", "linebreaks", "zones",
+                      "remove_first", "ooo_then_remove", "nested_not", "reset_then_time", "nan_fields", "epoch", "sparse_write", "sparse_write", "future_untimed", "range_ends", "noop_compose", "substring_names", "same_size", "one_us_late", "mixed_quoting", "far_sorted", "getter_memo", "handle_sorted", "odd_strings", "shared_maps", "hash_twins", "same_count", "redate", "fold_twins", "big_ties", "handle_unset", "same_row_twice", "or_not", "noop_match", "minute_marks", "none_name", "merge_rename", "tiny_float_change", "big_ints", "redate_remove", "underscore_keys", "buffered_handle"]
+SCENARIOS = list(dict.fromkeys(SCENARIO_DRAW))
+
+
 class Gen:
     def __init__(self, seed, profile=None):
         self.r = random.Random(seed)
@@ -339,8 +345,7 @@ class Gen:
     def scenario(self, csv):
         r = self.r
         obs = [("index_valid",), ("iter",)]
-        k = r.choice(["ooo_batch", "carriers", "bad_batch", "stale_handle", "torn_update", "handle_times", "linebreaks", "zones",
-                      "remove_first", "ooo_then_remove", "nested_not", "reset_then_time", "nan_fields", "epoch", "sparse_write", "sparse_write", "future_untimed", "range_ends", "noop_compose", "substring_names", "same_size", "one_us_late", "mixed_quoting", "far_sorted", "getter_memo", "handle_sorted", "odd_strings", "shared_maps", "hash_twins", "same_count", "redate", "fold_twins", "big_ties", "handle_unset", "same_row_twice", "or_not", "noop_match", "minute_marks", "none_name", "merge_rename", "tiny_float_change", "big_ints", "redate_remove", "underscore_keys", "buffered_handle"])
+        k = r.choice(SCENARIO_DRAW)
         pref = self.profile.get("scenario_pref")
         if pref and r.random() < 0.5:
             k = r.choice(pref)
